@@ -4,6 +4,8 @@
 package task
 
 import (
+	"fmt"
+
 	apierrors "k8s.io/apimachinery/pkg/api/errors"
 	"k8s.io/klog/v2"
 	"sigs.k8s.io/cli-utils/pkg/apply/event"
@@ -23,6 +25,9 @@ type DeleteOrUpdateInvTask struct {
 	DryRun        common.DryRunStrategy
 	// if Destroy is set, the inventory will be deleted if all objects were successfully pruned
 	Destroy bool
+	// PrevInventoryErr is the error of reading PrevInventory, if any. The task
+	// then fails instead of storing an inventory computed without it.
+	PrevInventoryErr error
 }
 
 func (i *DeleteOrUpdateInvTask) Name() string {
@@ -48,7 +53,9 @@ func (i *DeleteOrUpdateInvTask) Identifiers() object.ObjMetadataSet {
 func (i *DeleteOrUpdateInvTask) Start(taskContext *taskrunner.TaskContext) {
 	go func() {
 		var err error
-		if i.Destroy && i.destroySuccessful(taskContext) {
+		if i.PrevInventoryErr != nil {
+			err = fmt.Errorf("failed to read previous inventory: %w", i.PrevInventoryErr)
+		} else if i.Destroy && i.destroySuccessful(taskContext) {
 			err = i.deleteInventory()
 		} else {
 			err = i.updateInventory(taskContext)
